@@ -1,8 +1,10 @@
 package main
 
 import (
+	"fmt"
 	"go/ast"
 	"go/types"
+	"strings"
 )
 
 func ghostKey(kind string, obj Value) string {
@@ -23,9 +25,31 @@ func (x *Exec) ghostGet(st *State, kind string, obj Value, sort string) Term {
 	if g, ok := st.ghost[key]; ok {
 		return g
 	}
-	g := x.ghostSym(key, sort)
+	var g Term
+	if st.gepoch == 0 {
+		g = x.ghostSym(key, sort)
+	} else {
+		g = x.declareOnce(fmt.Sprintf("G_%s_e%d", symSan.ReplaceAllString(key, "_"), st.gepoch), sort)
+	}
 	st.ghost[key] = g
 	return g
+}
+
+// ghostHavoc forgets the ghost entries of the given kinds (effects of a callee); they are re-created fresh on demand.
+func (x *Exec) ghostHavoc(st *State, kinds []string) {
+	x.eng.counter++
+	st.gepoch = x.eng.counter
+	for key := range st.ghost {
+		k := key
+		if i := strings.Index(key, "|"); i >= 0 {
+			k = key[:i]
+		}
+		for _, kind := range kinds {
+			if k == kind || (kind == "sent" && (strings.HasPrefix(k, "sendlog") || strings.HasPrefix(k, "sendlen") || strings.HasPrefix(k, "sendseq"))) {
+				delete(st.ghost, key)
+			}
+		}
+	}
 }
 
 func (x *Exec) ghostSet(st *State, kind string, obj Value, v Term) {
@@ -46,6 +70,24 @@ func (x *Exec) ghostSend(st *State, ch Value, v Value) {
 	if p, ok := v.(PtrV); ok {
 		log := x.ghostGet(st, "sendlog", ch, ArrSort(SInt))
 		x.ghostSet(st, "sendlog", ch, Store(log, n, p.Ref))
+	}
+	if sv, ok := v.(StructV); ok {
+		// struct-valued jobs: log every field (integers by value, slices by length and a snapshot of their contents)
+		for name, fv := range sv.F {
+			switch f := fv.(type) {
+			case Scalar:
+				if f.T.Sort == SInt {
+					log := x.ghostGet(st, "sendlog."+name, ch, ArrSort(SInt))
+					x.ghostSet(st, "sendlog."+name, ch, Store(log, n, f.T))
+				}
+			case SliceV:
+				_, es := heapKey(f.Elem)
+				ll := x.ghostGet(st, "sendlen."+name, ch, ArrSort(SInt))
+				x.ghostSet(st, "sendlen."+name, ch, Store(ll, n, f.Len))
+				sl := x.ghostGet(st, "sendseq."+name, ch, ArrSort(ArrSort(es)))
+				x.ghostSet(st, "sendseq."+name, ch, Store(sl, n, x.seqOf(st, f)))
+			}
+		}
 	}
 	x.ghostSet(st, "sent", ch, Add(n, Int(1)))
 }
